@@ -285,6 +285,19 @@ def apply_to_facts(F):
             F.insts[k] = dict(v, body=nb, inlined=sorted(set(inl.inlined_into[k])), threaded=n_thr)
             changed.append(k)
     gone = set(k for k, v in F.insts.items() if is_helper(v) and not v.get("eff_pub"))
+    # a helper that is still referenced after the splice - through a vtable, a function pointer, a call that was not
+    # spliced (recursion, depth limit) - is NOT gone: it stays an instance of its own and is analysed as such
+    def referenced():
+        ref = set()
+        for k, n in F.graph.items():
+            if k in gone:
+                continue
+            edges = _edges_of_body(F.insts[k]["body"]) + noncall(k, {k}) if k in changed_set else n.get("edges", [])
+            for e in edges:
+                if e.get("to") in gone:
+                    ref.add(e["to"])
+        return ref
+    changed_set = set(changed)
     # graph: edges of a rewritten instance = calls of its new body + the non-call edges (drop glue, vtables, reified fns)
     # of itself and of everything spliced into it
     def noncall(k, seen):
@@ -302,6 +315,23 @@ def apply_to_facts(F):
         if n is None:
             continue
         F.graph[k] = dict(n, edges=_edges_of_body(F.insts[k]["body"]) + noncall(k, {k}))
+    while True:
+        still = referenced()
+        if not still:
+            break
+        for k in still:
+            gone.discard(k)
+            v = F.insts[k]
+            nb = inl.body_of(k)
+            if k in inl.inlined_into:
+                nb = copy.deepcopy(nb)
+                thread.normalize(nb)
+                F.insts[k] = dict(v, body=nb, inlined=sorted(set(inl.inlined_into[k])))
+                changed_set.add(k)
+                n = F.graph.get(k)
+                if n is not None:
+                    F.graph[k] = dict(n, edges=_edges_of_body(nb) + noncall(k, {k}))
+        report.setdefault("kept_helpers", []).extend(sorted(still))
     for k in gone:
         F.helper_insts[k] = F.insts.pop(k)
         F.graph.pop(k, None)
